@@ -1,17 +1,38 @@
 """Registry: property -> correspondence suites in its cone, trusted-base notes."""
+from pathlib import Path
 
 TRUSTED_BASE_COMMON = [
-    "Coq 8.16.1 kernel incl. its vm_compute virtual machine (used to evaluate the model on the generated cases); no native_compute",
+    "Coq 8.16.1 kernel incl. its vm_compute virtual machine (used to evaluate the model on the generated cases and in a few finite-domain lemmas whose bound is part of the statement); no native_compute",
     "no extraction; no axioms declared by the development; Print Assumptions per theorem listed below",
-    "hand-written Gallina model of the Python code: fidelity checked by the correspondence suites only (finitely many cases per run)",
-    "Python harness: generators, runner, canonicalisation (exception-class map, Fraction conversion), Gallina literal emitter, result parser",
-    "exact rationals (Q) stand for binary64 floats; generators confined to dyadic values where float arithmetic is exact",
+    "hand-written Gallina model of the Python code (coq/theories/Model): fidelity checked by the correspondence suites only (finitely many cases per run)",
+    "Python harness: generators, runner, canonicalisation (exception-class map, Fraction conversion), Gallina literal emitter, result parser; the property oracles are used only to find replays",
+    "exact rationals (Q) stand for binary64 floats; generators confined to dyadic values where float arithmetic is exact, cases near a rounding boundary are dropped and counted",
 ]
 
-PROPS = {
-    "C19": {
-        "suites": ["trough"],
-        "trusted": ["numpy.asarray(...).flatten('F') modelled as column-major list flattening (tied by the 2-D cases)"],
-        "assumptions": ["wells given as rectangular arrays of str"],
-    },
+_ALL = {
+    "C01": {"suites": ["prog", "wells"]},
+    "C02": {"suites": ["prog", "evocmd", "ctor"]},
+    "C03": {"suites": ["prog", "evocmd", "save"]},
+    "C04": {"suites": ["prog"]},
+    "C05": {"suites": ["prog", "ctor"]},
+    "C06": {"suites": ["pvol", "prog", "params"]},
+    "C07": {"suites": ["prog", "pcol"]},
+    "C08": {"suites": ["wells", "prog"]},
+    "C09": {"suites": ["params", "prog"]},
+    "C10": {"suites": ["params", "evocmd"]},
+    "C11": {"suites": ["prog"]},
+    "C12": {"suites": ["sel"]},
+    "C13": {"suites": ["evocmd"]},
+    "C14": {"suites": ["plan"]},
+    "C15": {"suites": ["xform"]},
+    "C16": {"suites": ["devpair"]},
+    "C17": {"suites": ["save"]},
+    "C18": {"suites": ["pcol"]},
+    "C19": {"suites": ["trough"]},
+    "C20": {"suites": ["ctor", "wells"]},
 }
+
+_PROPS_DIR = Path(__file__).resolve().parent.parent / "coq" / "theories" / "Props"
+# a property is claimed once its theorem file is part of the build
+_PROJECT = (_PROPS_DIR.parent.parent / "_CoqProject").read_text()
+PROPS = {pid: spec for pid, spec in _ALL.items() if f"theories/Props/{pid}.v" in _PROJECT and (_PROPS_DIR / f"{pid}.v").exists()}
